@@ -17,6 +17,11 @@ LEVEL_NOTE = 'Trusts: Lean kernel; correspondence sampling; panics inside user c
 TECHNIQUE = 'Lean 4 totality theorem over the composed loop (induction on fuel with the cursor invariant) + differential correspondence + Lean trace oracle'
 
 
+
+# history-level refinement (Props/C02History, Props/C09History): the per-step theorems lifted to EVERY history against the flat-map specification
+THEOREMS = THEOREMS + ['Portus.C02.history_refines_flat_map', 'Portus.C09.spec_ignored_is_identity', 'Portus.C09.spec_unknown_measure_is_identity']
+AUDIT_IMPORTS = list(AUDIT_IMPORTS) + ['PortusModel.Props.C09History']
+
 def project(c, r):
     return r if c.cmd == "XPT" else R.project(r, KEEP)
 
@@ -37,6 +42,8 @@ def gen(ctx):
             yield Case("XPT", "over %s %s" % (kind, mode), tags=("oversize",))
     for _ in range(40000 if ctx.thorough else 2500):
         yield Case("RUN", R.gen_case(rng, n=rng.randrange(1, 61 if ctx.thorough else 31), adversarial=rng.choice([0.2, 0.4, 0.6]), faults=rng.choice([0.05, 0.1, 0.2]), stop=0.02, rich=rng.random() < 0.5), tags=("adversarial",))
+    for _s in R.long_fault_runs():
+        yield Case("RUN", _s, tags=("long-recv-failure-run",))
     for typ in list(range(0, 8)) + [255, 256, 257, 258, 259, 260, 261, 0xFFFF]:
         for ln in (8, 12, 16, 20, 96):
             import struct
